@@ -15,7 +15,7 @@
 namespace {
 
 enum { OP_SCHED_NOW = 1, OP_SCHED_FUT, OP_CANCEL, OP_SLEEP, OP_YIELD, OP_BEHAV, OP_MAIN_SLEEP };
-enum { B_SCHED_NOW = 1, B_SCHED_FUT, B_SCHED_THEN_CANCEL };
+enum { B_SCHED_NOW = 1, B_SCHED_FUT, B_SCHED_THEN_CANCEL, B_RESCHED_SELF };
 static const uint64_t FAR = 100000000000000000ull; // 1e17 ns: beyond anything the virtual clock can reach in a run
 
 struct Behav { int action; int64_t arg; int64_t arg2; };
@@ -23,15 +23,19 @@ struct Behav { int action; int64_t arg; int64_t arg2; };
 struct TaskM {
     struct aws_task task;
     int id = 0;
-    bool sched_invoked = false, sched_returned = false;
+    bool sched_invoked = false, sched_returned = false; // current instance
+    bool busy = false;          // an instance is scheduled and its function has not returned yet
+    uint64_t instances = 0;     // instances scheduled so far
+    uint64_t invoked_total = 0; // invocations so far (must end up equal to instances)
     uint64_t time = 0; // 0 = run-now
     bool far = false;
     bool cancel_invoked = false;
-    int invocations = 0;
+    int invocations = 0;        // of the current instance
     int status = -1;
     int inv_thread = -1;
     uint64_t inv_boot = 0, inv_seq = 0;
     std::vector<Behav> on_run;
+    int resched_left = 2;
 };
 
 struct Ctx {
@@ -57,8 +61,15 @@ uint64_t delta_of(int cls) {
 }
 
 void do_schedule(Ctx &c, TaskM &t, bool now_kind, int cls) {
-    if (t.sched_invoked) return; // every task object carries one scheduled instance per run
-    t.sched_invoked = true;      // claimed before any decision point: no two threads may schedule the same task object
+    if (t.busy) return;          // a task object carries one scheduled instance at a time; it may be re-used once that one is over
+    t.busy = true;               // claimed before any decision point: no two threads may schedule the same task object
+    if (t.instances) sim::probe("task_object_rescheduled");
+    t.instances++;
+    t.sched_invoked = true;
+    t.sched_returned = false;
+    t.cancel_invoked = false;
+    t.invocations = 0;
+    t.status = -1;
     uint64_t when = 0;
     if (!now_kind) {
         if (cls == 9) { // in the past
@@ -97,7 +108,8 @@ void task_fn(struct aws_task *task, void *arg, enum aws_task_status status) {
     (void)task;
     c.invocations++;
     t.invocations++;
-    if (t.invocations > 1)
+    t.invoked_total++;
+    if (t.invocations > 1 || t.invoked_total > t.instances)
         sim::violation("c08:double-invoke", "task %d invoked twice: first %s on T%d, now %s on T%d", t.id, t.status == 0 ? "RUN" : "CANCELED", t.inv_thread,
                        status == AWS_TASK_STATUS_RUN_READY ? "RUN" : "CANCELED", sim::self());
     if (!t.sched_invoked) sim::violation("c08:phantom", "task %d invoked but never scheduled", t.id);
@@ -120,10 +132,10 @@ void task_fn(struct aws_task *task, void *arg, enum aws_task_status status) {
             TaskM &o = c.tasks[(size_t)b.arg % c.tasks.size()];
             if (&o == &t) continue;
             switch (b.action) {
-                case B_SCHED_NOW: if (!o.sched_invoked) { sim::probe("scheduled_from_task"); do_schedule(c, o, true, 0); } break;
-                case B_SCHED_FUT: if (!o.sched_invoked) { sim::probe("scheduled_from_task"); do_schedule(c, o, false, (int)b.arg2); } break;
+                case B_SCHED_NOW: if (!o.busy) { sim::probe("scheduled_from_task"); do_schedule(c, o, true, 0); } break;
+                case B_SCHED_FUT: if (!o.busy) { sim::probe("scheduled_from_task"); do_schedule(c, o, false, (int)b.arg2); } break;
                 case B_SCHED_THEN_CANCEL:
-                    if (!o.sched_invoked) { sim::probe("schedule_then_cancel_from_task"); do_schedule(c, o, false, 7); do_cancel(c, o); }
+                    if (!o.busy) { sim::probe("schedule_then_cancel_from_task"); do_schedule(c, o, false, 7); do_cancel(c, o); }
                     break;
             }
         }
@@ -131,6 +143,14 @@ void task_fn(struct aws_task *task, void *arg, enum aws_task_status status) {
         if (!t.cancel_invoked && !c.destroy_may_have_started)
             sim::violation("c08:spurious-cancel", "task %d invoked with CANCELED status although it was not cancelled and the last reference is still held", t.id);
     }
+    t.busy = false; // the function is done with the task object: it may be scheduled again
+    if (status == AWS_TASK_STATUS_RUN_READY)
+        for (const Behav &b : t.on_run)
+            if (b.action == B_RESCHED_SELF && t.resched_left > 0 && !t.busy) {
+                t.resched_left--;
+                sim::probe("task_rescheduled_itself");
+                do_schedule(c, t, b.arg2 == 0, (int)b.arg2);
+            }
 }
 
 void final_checks(Ctx &c, const char *who) {
@@ -140,7 +160,7 @@ void final_checks(Ctx &c, const char *who) {
     if (c.sched_tid >= 0 && !sim::thread_done(c.sched_tid))
         sim::violation("c08:thread-alive", "%s: final release returned but the scheduler thread T%d has not exited", who, c.sched_tid);
     for (auto &t : c.tasks) {
-        if (t.sched_invoked && t.invocations == 0) {
+        if (t.invoked_total != t.instances) {
             sim::violation("c08:lost-task",
                            "task %d (%s%s) was scheduled (call returned: %s) but never invoked although the final release has returned", t.id,
                            t.time == 0 ? "run-now" : "timed", t.cancel_invoked ? ", cancelled" : "", t.sched_returned ? "yes" : "no");
@@ -154,7 +174,7 @@ void do_release(Ctx &c, const char *who) {
     if (c.releases_invoked == c.total_refs) {
         c.destroy_may_have_started = true;
         int pending = 0;
-        for (auto &t : c.tasks) if (t.sched_invoked && !t.invocations) pending++;
+        for (auto &t : c.tasks) if (t.invoked_total != t.instances) pending++;
         if (pending) sim::probe("final_release_with_pending_tasks");
     }
     sim::note(sim::PK_HARNESS, nullptr, 900);
@@ -324,7 +344,7 @@ void gen(uint64_t seed, int tier, sim::Plan &p) {
         sim::Op b;
         b.thr = -1; b.kind = OP_BEHAV;
         b.a = r.range(0, nt - 1);
-        b.c = r.range(1, 3);
+        b.c = r.range(1, 4);
         b.d = r.range(0, nt - 1);
         b.b = r.pick(std::vector<int64_t>{0, 1, 2, 3, 4, 7});
         p.ops.push_back(b);
@@ -355,7 +375,7 @@ void gen(uint64_t seed, int tier, sim::Plan &p) {
 std::string op_text(const sim::Op &op) {
     char b[160];
     static const char *dc[] = {"now+0", "now+1ns", "now+1us", "now+1ms", "now+1s", "now+31s", "now+2h", "now+FAR(1e17ns)", "UINT64_MAX-5", "now-1ms"};
-    static const char *ba[] = {"?", "schedule_now", "schedule_future", "schedule_future(FAR) then cancel"};
+    static const char *ba[] = {"?", "schedule_now", "schedule_future", "schedule_future(FAR) then cancel", "re-schedule itself"};
     const char *who = op.thr == 0 ? "main" : "client";
     switch (op.kind) {
         case OP_SCHED_NOW: snprintf(b, sizeof b, "%s%d: schedule_now(task %lld)", who, op.thr, (long long)op.a); break;
@@ -363,7 +383,7 @@ std::string op_text(const sim::Op &op) {
         case OP_CANCEL: snprintf(b, sizeof b, "%s%d: cancel(task %lld) [only if far-future and its schedule call has returned]", who, op.thr, (long long)op.a); break;
         case OP_SLEEP: case OP_MAIN_SLEEP: snprintf(b, sizeof b, "%s%d: sleep(%lld ns virtual)", who, op.thr, (long long)op.a); break;
         case OP_YIELD: snprintf(b, sizeof b, "%s%d: yield", who, op.thr); break;
-        case OP_BEHAV: snprintf(b, sizeof b, "behaviour: task %lld when RUN does %s(task %lld, %s)", (long long)op.a, ba[op.c % 4], (long long)op.d, dc[op.b % 10]); break;
+        case OP_BEHAV: snprintf(b, sizeof b, "behaviour: task %lld when RUN does %s(task %lld, %s)", (long long)op.a, ba[op.c % 5], (long long)op.d, dc[op.b % 10]); break;
         default: snprintf(b, sizeof b, "?");
     }
     return b;
